@@ -13,4 +13,5 @@ pub mod oracle;
 pub mod probes;
 pub mod report;
 pub mod scenarios;
+pub mod script;
 pub mod seq;
